@@ -10,11 +10,17 @@ use aws_smt_strings::regular_expressions::RegLan;
 
 pub fn check_term(s: &mut Sess, rep: &mut Report, t: RegLan, k: usize) {
     let cap = closure_cap(s.thorough);
-    if closure_size(&mut s.m, t, cap).is_none() {
+    let t0 = std::time::Instant::now();
+    let cs = closure_size(&mut s.m, t, cap);
+    rep.count("ms_in_closure_size", t0.elapsed().as_millis() as u64);
+    if cs.is_none() {
         rep.inc("skipped_derivative_budget");
         return;
     }
-    let dref = match s.ctx.term_dfa(t) {
+    let t1 = std::time::Instant::now();
+    let dref = s.ctx.term_dfa(t);
+    rep.count("ms_in_refdfa", t1.elapsed().as_millis() as u64);
+    let dref = match dref {
         Ok(d) => d,
         Err(_) => {
             rep.inc("skipped_refdfa_budget");
